@@ -1060,34 +1060,57 @@ func c05(r *core.Run) {
 						continue
 					}
 				}
-				desc, good := "", false
-				switch x := errArg.(type) {
-				case *ssa.Extract:
-					if ta, ok := x.Tuple.(*ssa.TypeAssert); ok && core.TypeName(ta.AssertedType) == "Error" {
-						desc, good = "asserted-*Error-verbatim", true
+				judge := func(ea ssa.Value, at ssa.CallInstruction) {
+					desc, good := "", false
+					switch x := ea.(type) {
+					case *ssa.Extract:
+						if ta, ok := x.Tuple.(*ssa.TypeAssert); ok && core.TypeName(ta.AssertedType) == "Error" {
+							desc, good = "asserted-*Error-verbatim", true
+						}
+					case *ssa.TypeAssert:
+						desc, good = "asserted-*Error-verbatim", core.TypeName(x.AssertedType) == "Error"
+					case *ssa.Call:
+						if cc := x.Common().StaticCallee(); cc != nil && (cc.Name() == "ToError" || cc.Name() == "InternalError") {
+							desc, good = cc.Name()+"(...)", true
+						}
 					}
-				case *ssa.TypeAssert:
-					desc, good = "asserted-*Error-verbatim", core.TypeName(x.AssertedType) == "Error"
-				case *ssa.Call:
-					if cc := x.Common().StaticCallee(); cc != nil && (cc.Name() == "ToError" || cc.Name() == "InternalError") {
-						desc, good = cc.Name()+"(...)", true
+					if desc == "" {
+						desc = valDesc(ea)
 					}
-				}
-				if desc == "" {
-					desc = valDesc(errArg)
-				}
-				// arm sensitivity: inside the arm where the panic value was asserted to *Error, only the value itself is allowed
-				for _, ed := range dominatingEdges(c) {
-					if ex, ok := ed.If.Cond.(*ssa.Extract); ok && ex.Index == 1 && ed.Succ == 0 {
-						if ta, ok := ex.Tuple.(*ssa.TypeAssert); ok && core.TypeName(ta.AssertedType) == "Error" {
-							if _, isPtr := ta.AssertedType.(*types.Pointer); isPtr && desc != "asserted-*Error-verbatim" {
-								good = false
-								desc = "*Error-arm:" + desc
+					// arm sensitivity: inside the arm where the panic value was asserted to *Error, only the value itself is allowed
+					for _, ed := range dominatingEdges(at) {
+						if ex, ok := ed.If.Cond.(*ssa.Extract); ok && ex.Index == 1 && ed.Succ == 0 {
+							if ta, ok := ex.Tuple.(*ssa.TypeAssert); ok && core.TypeName(ta.AssertedType) == "Error" {
+								if _, isPtr := ta.AssertedType.(*types.Pointer); isPtr && desc != "asserted-*Error-verbatim" {
+									good = false
+									desc = "*Error-arm:" + desc
+								}
 							}
 						}
 					}
+					r.Check(good, "E1", core.FuncName(cl), "recover-arm-error:"+desc, p.InstrPos(at), "panic value mapped by the documented rule", "a recovered panic is answered with "+desc+": neither the *Error itself nor an internal error")
 				}
-				r.Check(good, "E1", core.FuncName(cl), "recover-arm-error:"+desc, p.InstrPos(c), "panic value mapped by the documented rule", "a recovered panic is answered with "+desc+": neither the *Error itself nor an internal error")
+				// the reply call may sit in a small helper of the recover closure that is handed the
+				// error (replyPanic(rerr)): what it replies with is judged at the helper's call sites
+				if prm, isPrm := errArg.(*ssa.Parameter); isPrm && prm.Parent().Parent() == nil && p.IsPrivateHelper(prm.Parent()) && prm.Parent() != cl {
+					idx := -1
+					for k, q := range prm.Parent().Params {
+						if q == prm {
+							idx = k
+						}
+					}
+					sites := 0
+					for _, c2 := range p.CallersOf(prm.Parent()) {
+						if idx >= 0 && idx < len(c2.Common().Args) {
+							sites++
+							judge(core.Strip(c2.Common().Args[idx]), c2)
+						}
+					}
+					if sites > 0 {
+						continue
+					}
+				}
+				judge(errArg, c)
 			}
 			m.root = savedRoot
 		}
